@@ -174,12 +174,21 @@ impl Property for C10 {
         let mut case = Case::new("C10", if mode_whole { "whole" } else { "selected" });
         let npool = pool().len() as i64;
         let max = if tier == Tier::Thorough { 40 } else { 16 };
-        let n = rng.range(1, max);
+        // one scenario in eight is a long one with many different records (whatever --unique
+        // keeps per distinct row grows, moves, is reorganised), most redeliveries being of
+        // records that were first seen a moment ago
+        let many = rng.chance(1, 8);
+        let n = if many { rng.range(34, 46) } else { rng.range(1, max) };
         // identities: tuple table
         let mut tuples: Vec<(i64, i64, u32)> = Vec::new();
         let mut order: Vec<usize> = Vec::new(); // delivery order as indices into tuples
         for _ in 0..n {
-            if !tuples.is_empty() && rng.chance(2, 5) {
+            if many && !tuples.is_empty() && rng.chance(1, 4) {
+                let back = rng.below(3.min(tuples.len()));
+                order.push(tuples.len() - 1 - back);
+                continue;
+            }
+            if !many && !tuples.is_empty() && rng.chance(2, 5) {
                 order.push(rng.below(tuples.len()));
                 continue;
             }
@@ -258,6 +267,12 @@ impl Property for C10 {
         // is named 2..3 times on the command line (hook H2)
         if rng.chance(1, 8) && !case.opts.iter().flatten().any(|t| t.contains("&index-in-file")) {
             case.set("file_times", rng.range(2, 3) as i64);
+        }
+        // the stream arrives in 2..3 parts, each a file argument or the only file of a
+        // directory argument: one run, one notion of "seen before"
+        if case.param("file_times") < 2 && rng.chance(1, 8) && !case.opts.iter().flatten().any(|t| t.contains("&index-in-file")) {
+            case.set("parts", rng.range(2, 3) as i64);
+            case.set("parts_seed", (rng.next_u64() >> 1) as i64);
         }
         // history: an earlier --unique run in the same process that was cut short by a failing
         // read must leave nothing behind for this one
@@ -341,9 +356,66 @@ impl Property for C10 {
             }
             ctx.jawk_panic = None;
         }
+        // parts: where the stream is cut (after a gap) and which parts sit in a directory
+        let mut part_datas: Vec<Vec<u8>> = Vec::new();
+        let mut part_dirs: Vec<bool> = Vec::new();
+        if case.param("parts") >= 2 && file_times < 2 {
+            let mut prng = Rng::new(case.param("parts_seed") as u64);
+            let mut ends: Vec<usize> = Vec::new();
+            let mut off = 0;
+            for p in &case.pieces {
+                off += p.bytes.0.len();
+                if p.kind == Kind::Gap && off < stream.len() {
+                    ends.push(off);
+                }
+            }
+            let mut cuts: Vec<usize> = Vec::new();
+            for _ in 1..case.param("parts") {
+                if !ends.is_empty() {
+                    let c = *prng.pick(&ends);
+                    if !cuts.contains(&c) {
+                        cuts.push(c);
+                    }
+                }
+            }
+            cuts.sort();
+            if !cuts.is_empty() {
+                let mut prev = 0;
+                for c in cuts {
+                    part_datas.push(stream[prev..c].to_vec());
+                    prev = c;
+                }
+                part_datas.push(stream[prev..].to_vec());
+                part_dirs = part_datas.iter().map(|_| prng.chance(1, 2)).collect();
+                ctx.stats.probe("stream delivered in parts (files and directories)");
+                if part_dirs[..part_dirs.len() - 1].iter().any(|d| *d) {
+                    ctx.stats.probe("a directory argument is followed by another argument");
+                }
+            }
+        }
         let mut first_out: Option<Vec<u8>> = None;
         for (si, hs) in case.hash_seeds.iter().enumerate() {
-            let mut spec = if file_times >= 2 {
+            let mut made_dirs: Vec<String> = Vec::new();
+            let mut spec = if !part_datas.is_empty() {
+                let mut args = Vec::new();
+                let mut paths = Vec::new();
+                for d in &part_dirs {
+                    if *d {
+                        let Some(dir) = ctx.fresh_dir() else {
+                            ctx.harness_error = Some("cannot create a directory".into());
+                            return None;
+                        };
+                        paths.push(format!("{dir}/only.json"));
+                        args.push(dir.clone());
+                        made_dirs.push(dir);
+                    } else {
+                        let p = ctx.fresh_paths(1).remove(0);
+                        args.push(p.clone());
+                        paths.push(p);
+                    }
+                }
+                sim_args_spec(&uniq, &args, &paths, &part_datas, &[])
+            } else if file_times >= 2 {
                 let paths = ctx.fresh_paths(1);
                 let mut sp = sim_files_spec(&uniq, &paths, &[stream.clone()], &[FilePlan { chunks: case.delivery.chunks.clone(), eintr: case.delivery.eintr.clone(), ..FilePlan::default() }]);
                 for _ in 1..file_times {
@@ -355,6 +427,9 @@ impl Property for C10 {
             };
             spec.hash_seed = Some(*hs);
             let r = ctx.exec(spec);
+            for d in &made_dirs {
+                let _ = std::fs::remove_dir_all(d);
+            }
             if !r.outcome.is_ok() {
                 if matches!(r.outcome, crate::run::Outcome::Panic(..)) {
                     return None;
